@@ -131,7 +131,7 @@ def rule_db(chk, A):
 def rule_imm(chk, A):
     """immediate clauses: 64-bit immediates are range-tested before they are narrowed, and condition codes are bounded by the enum"""
     emit = A["emit"]
-    n = narrow.run(chk, [emit], rule="R-NARROW-GUARDED", floor=12, lossy=True)
+    n = narrow.run(chk, [emit], rule="R-NARROW-GUARDED", floor=12, lossy=True, helpers=A["helpers"])
     f = chk.facts("asmjit/arm/a64assembler.cpp", enums=r"asmjit::arm::CondCode$")
     en = f["enums"].get("asmjit::arm::CondCode")
     chk.need(en is not None, "enum arm::CondCode not found")
